@@ -32,6 +32,11 @@ pub async fn maybe_run() -> Option<i32> {
         c16::print_serial_digest();
         return Some(0);
     }
+    if id == "C16:cli" {
+        silence_panics();
+        c16::print_cli_specs();
+        return Some(0);
+    }
     let code = std::thread::spawn(move || run(&id)).join().unwrap_or(2);
     Some(code)
 }
